@@ -579,6 +579,22 @@ def run_shift_forms(case, seed, R):
                 # the same object again (a user keeps one shift vector for many calls)
                 again = f(sh)
                 R.expect_close(again, base, TOL * nx * 10, sig + ':reuse', f'second call with the same shift object ({form}) gives another field')
+        # memory layout of the field x the (anisotropic) shift of this case: column-major, a transposed view of the transposed data, a strided
+        # window, a reversed-stride view -- the same numbers must give the same field (a layout fast path has to carry the per-axis
+        # arguments with it); the hygiene layer tries layouts only on the first call signature of a case, which need not be a shifted one
+        layouts = {'F': np.asfortranarray, 'T-view': lambda a: np.ascontiguousarray(a.T).T,
+                   'strided': lambda a: np.repeat(np.repeat(a, 2, axis=0), 2, axis=1)[::2, ::2], 'reversed': lambda a: a[::-1, ::-1].copy()[::-1, ::-1]}
+        lay_calls = [('focus_fixed_sampling', x, lambda arr: propagation.focus_fixed_sampling(arr, dxi, efl, wvl, dxo, samples_arg(S), shift=shu, method=method)),        # noqa
+                     ('unfocus_fixed_sampling', X, lambda arr: propagation.unfocus_fixed_sampling(arr, dxo, efl, wvl, dxi, samples_arg(n), shift=shu, method=method)),    # noqa
+                     ('to_fpm_and_back', x, lambda arr: propagation.to_fpm_and_back(arr, dxi, efl, wvl, mask, dxo, shift=shu, method=method)),                            # noqa
+                     ('to_fpm_and_back[mask]', mask, lambda arr: propagation.to_fpm_and_back(x.copy(), dxi, efl, wvl, arr, dxo, shift=shu, method=method))]                 # noqa
+        for name, arr0, g in lay_calls:
+            base = R.call(g, arr0.copy(), sig=f'{name}:{method}:layout:exception', hygiene=False)
+            if base is FAILED:
+                continue
+            for lname, mk in layouts.items():
+                got = R.call(g, mk(arr0), sig=f'{name}:{method}:layout:exception', hygiene=False)
+                R.expect_close(got, np.asarray(base), TOL * nx * 10, f'{name}:{method}:layout:shifted', f'{lname} layout of the array with shift {shu} gives another field than the C-ordered array')
     R.nontrivial()
     R.outcome('forms')
 
